@@ -228,6 +228,22 @@ func runC13(c *Ctx, idx int, o *Obs) {
 			i++
 		})
 	}
+	// ---- the same Nexus document in the layouts other programs write ---------------------------------
+	// (the writer's own layout: one "key name" pair per line, no commas, ';' on a line of its own)
+	if nx, err := nexus.WriteNexus(chanOf(mkTrees()...), true); err == nil {
+		layout, nx2 := relayoutNexus(r, nx)
+		o.AddSet("nexus_layouts", layout)
+		what := "Nexus with translate table, layout " + layout
+		n, err := nexus.NewParser(strings.NewReader(nx2)).Parse()
+		if o.Check(err == nil, "nexus_layout_read_error", what+": "+fmt.Sprint(err), nx2) &&
+			o.Check(n.NTrees() == ntrees, "nexus_tree_count", fmt.Sprintf("%s: %d trees read, %d written", what, n.NTrees(), ntrees), nx2) {
+			i := 0
+			n.IterateTrees(func(name string, t *tree.Tree) {
+				same("nexus_layout", fmt.Sprintf("%s, tree %d", what, i), models[i], modelOf(mustParse(t.Newick())), texts[i]+"\n"+nx2)
+				i++
+			})
+		}
+	}
 	// ---- PhyloXML chain (library) ------------------------------------------------------------
 	var xmlDoc string
 	{
@@ -377,4 +393,34 @@ func firstErr(recs []rec13) error {
 		}
 	}
 	return nil
+}
+
+// relayoutNexus rewrites the TRANSLATE command of a document written by gotree in an equivalent layout.
+func relayoutNexus(r *rand.Rand, nx string) (string, string) {
+	a := strings.Index(nx, "  TRANSLATE\n")
+	b := strings.Index(nx, "\n  ;\n")
+	if a < 0 || b < a {
+		return "as-written", nx
+	}
+	var pairs []string
+	for _, l := range strings.Split(nx[a+len("  TRANSLATE\n"):b], "\n") {
+		if l = strings.TrimSpace(l); l != "" {
+			pairs = append(pairs, l)
+		}
+	}
+	head, tail := nx[:a], nx[b+len("\n  ;\n"):]
+	switch r.Intn(5) {
+	case 0:
+		return "commas, one pair per line, ';' after the last pair", head + "  TRANSLATE\n    " + strings.Join(pairs, ",\n    ") + ";\n" + tail
+	case 1:
+		return "commas, one line", head + "  TRANSLATE " + strings.Join(pairs, ", ") + ";\n" + tail
+	case 2:
+		return "no commas, ';' after the last pair", head + "  TRANSLATE\n   " + strings.Join(pairs, "\n   ") + ";\n" + tail
+	case 3:
+		return "commas, ';' on its own line, tabs", head + "\tTRANSLATE\n\t\t" + strings.Join(pairs, ",\n\t\t") + "\n\t;\n" + tail
+	default:
+		lower := strings.NewReplacer("BEGIN TAXA;", "begin taxa;", "DIMENSIONS NTAX", "dimensions ntax", "TAXLABELS", "taxlabels", "END;", "end;",
+			"BEGIN TREES;", "begin trees;", "  TREE ", "  tree ")
+		return "lower-case keywords, commas", lower.Replace(head) + "  translate\n    " + strings.Join(pairs, ",\n    ") + "\n  ;\n" + lower.Replace(tail)
+	}
 }
